@@ -12,21 +12,12 @@ def fromS (s : SRange) : Range :=
 
 theorem toS_fromS (s : SRange) : toS (fromS s) = s := rfl
 
-/-- K2 does not apply to this element -/
-def Elem.noK2 (e : Elem) : Prop := Known.emptyBeforeNonEmpty (Known.significant e.params) = false
-
-theorem range_no_sp_semi {r : Bytes} (h : isRange r = true) : ∀ c ∈ r, c ≠ 32 ∧ c ≠ 59 := by
+theorem range_no_sp_semi {r : Bytes} (h : isRange r = true) : ∀ c ∈ r, isOWSb c = false ∧ c ≠ 59 := by
   intro c hc
   rcases (isRange_chars h).2 c hc with ht | rfl
-  · exact ⟨(tchar_ne ht).1, (tchar_ne ht).2.1⟩
+  · have := tchar_ne ht
+    exact ⟨by simp [isOWSb, this.1, this.2.2.2.2.2.2], this.2.1⟩
   · decide
-
-theorem strict_distinct {e : Elem} (h : e.strict) :
-    distinctNames ((mediaParams e.params).map (fun p => toLower p.name)) = true := by
-  have := h.1
-  unfold wfElem at this
-  simp only [Bool.and_eq_true] at this
-  exact this.2
 
 theorem weight_qvalue {e : Elem} (h : e.strict) {w : Param} (hw : weightOf e.params = some w) :
     ∃ qq, qvalue? w.value = some qq := by
@@ -41,8 +32,8 @@ theorem weight_qvalue {e : Elem} (h : e.strict) {w : Param} (hw : weightOf e.par
   simp only [hn', Bool.false_eq_true, if_false, Bool.and_eq_true, hisw, if_true] at hbody
   exact Option.isSome_iff_exists.1 hbody.2.2
 
-theorem parseElem_rendered (tab : Bytes → Option Qual) (e : Elem) (n : Nat) (h : e.strict) (hr : e.rng ≠ [])
-    (hk2 : e.noK2) : parseElem tab (bodyOf e) n = (denoteElem e n).map fromS := by
+theorem parseElem_rendered (tab : Bytes → Option Qual) (e : Elem) (n : Nat) (h : e.strict) (hr : e.rng ≠ []) :
+    parseElem tab (bodyOf e) n = (denoteElem e n).map fromS := by
   have hrange := strict_range h hr
   have hchars := range_no_sp_semi hrange
   have hr' : (e.rng == []) = false := by simpa using hr
@@ -53,12 +44,12 @@ theorem parseElem_rendered (tab : Bytes → Option Qual) (e : Elem) (n : Nat) (h
       intro hm
       rcases List.mem_append.1 hm with hm | hm
       · exact (hchars 59 hm).2 rfl
-      · have := List.all_eq_true.1 (spOnly_all h.2.2.1) 59 hm; simp at this
+      · rcases owsOnly_mem h.2.2.1 hm with e | e <;> cases e
     rw [hbody]
     unfold parseElem
     rw [splitSemi_none _ hnosemi]
     simp only [trim_range e.rng e.trail hr (fun c hc => (hchars c hc).1) h.2.2.1]
-    simp [denoteElem, hr', hps, weightOf, mediaParams, fromS, Qual.isZero, Qual.one]
+    simp [denoteElem, hr', hps, weightOf, mediaParams, paramMap, fromS, Qual.isZero, Qual.one]
   | cons p ps =>
     have hp : p.strict := h.2.2.2 p (by rw [hps]; simp)
     have hpss : ∀ q ∈ ps, q.strict := fun q hq => h.2.2.2 q (by rw [hps]; simp [hq])
@@ -68,17 +59,13 @@ theorem parseElem_rendered (tab : Bytes → Option Qual) (e : Elem) (n : Nat) (h
       intro hm
       rcases List.mem_append.1 hm with hm | hm
       · exact (hchars 59 hm).2 rfl
-      · have := List.all_eq_true.1 (spOnly_all hp.2.1) 59 hm; simp at this
+      · rcases owsOnly_mem hp.2.1 hm with e | e <;> cases e
     have hsplit : splitSemi (bodyOf e) = some (e.rng ++ p.ows1, restOf p ps e.trail) := by
       rw [hbody]
       have : restOf p ps e.trail = 59 :: (restOf p ps e.trail).tail := by simp [restOf]
       rw [this, splitSemi_at _ _ hnosemi]
-    have hk2' : Known.emptyBeforeNonEmpty (Known.significant (p :: ps)) = false := by
-      have := hk2; unfold Elem.noK2 at this; rw [hps] at this; exact this
-    have hd : distinctNames (([] : Params).map (·.1) ++ (mediaParams (p :: ps)).map (fun p => toLower p.name)) = true := by
-      have := strict_distinct h; rw [hps] at this; simpa using this
     have hqp := qualityParams_rendered tab p ps e.trail hp hpss h.2.2.1
-    rw [slowParams_visited tab (p :: ps) .one [] hk2' hd] at hqp
+    rw [slowParams_visited tab (p :: ps) .one []] at hqp
     unfold parseElem
     rw [hsplit]
     simp only [hqp, List.nil_append]
@@ -86,11 +73,11 @@ theorem parseElem_rendered (tab : Bytes → Option Qual) (e : Elem) (n : Nat) (h
     unfold denoteElem
     simp only [hr', Bool.false_eq_true, if_false, hps]
     cases hw : weightOf (p :: ps) with
-    | none => simp [fromS, Qual.isZero, Qual.one]
+    | none => simp [fromS, paramMap, Qual.isZero, Qual.one]
     | some w =>
       obtain ⟨qq, hqq⟩ := weight_qvalue h (by rw [hps]; exact hw)
       simp only [ufloat_qvalue tab hqq, hqq, Option.getD_some]
-      cases qq.isZero <;> simp [fromS]
+      cases qq.isZero <;> simp [fromS, paramMap]
 
 /-! ### the whole header -/
 
@@ -99,7 +86,7 @@ def emptyRange (n : Nat) : Range := { spec := [], q := .one, spcf := 4, params :
 theorem specificity_nil : specificity [] = 4 := by decide
 
 theorem parseElem_nil (tab : Bytes → Option Qual) (n : Nat) : parseElem tab [] n = some (emptyRange n) := by
-  simp [parseElem, splitSemi, trim, trimLeft, trimRight, specificity_nil, emptyRange]
+  simp [parseElem, splitSemi, trimOWS, trimRightOWS, specificity_nil, emptyRange]
 
 theorem render_cons_cons (e e2 : Elem) (es : List Elem) :
     render (e :: e2 :: es) = renderElem e ++ 44 :: render (e2 :: es) := by
@@ -123,7 +110,7 @@ theorem denoteElem_spec {e : Elem} {n : Nat} {s : SRange} (h : denoteElem e n = 
 /-- the accepted types parsed from a rendered header: the header's meaning, interleaved with
     empty ranges (quality 1) for empty list elements -/
 theorem parse_render (tab : Bytes → Option Qual) (es : List Elem)
-    (hs : ∀ e ∈ es, e.strict) (hk : ∀ e ∈ es, e.noK2) :
+    (hs : ∀ e ∈ es, e.strict) :
     ∀ (saw : Bool) (n : Nat),
       ((parseRangesFrom tab (rangesGo (render es) (.lead saw) []) n).filter (fun r => r.spec != [])) =
         (denoteFrom es (n + 1)).map fromS ∧
@@ -135,9 +122,7 @@ theorem parse_render (tab : Bytes → Option Qual) (es : List Elem)
   | cons e es ih =>
     intro saw n
     have he := hs e (by simp)
-    have hke := hk e (by simp)
     have hs' : ∀ x ∈ es, x.strict := fun x hx => hs x (by simp [hx])
-    have hk' : ∀ x ∈ es, x.noK2 := fun x hx => hk x (by simp [hx])
     cases es with
     | nil =>
       rw [render_single]
@@ -146,7 +131,7 @@ theorem parse_render (tab : Bytes → Option Qual) (es : List Elem)
         simp only [denoteFrom, denoteElem_empty e _ hr, List.map_nil]
         split <;> simp [parseRangesFrom, parseElem_nil, emptyRange]
       · rw [rangesGo_elem_last e he hr]
-        simp only [parseRangesFrom, parseElem_rendered tab e (n + 1) he hr hke, denoteFrom]
+        simp only [parseRangesFrom, parseElem_rendered tab e (n + 1) he hr, denoteFrom]
         cases hd : denoteElem e (n + 1) with
         | none => simp
         | some s =>
@@ -163,7 +148,7 @@ theorem parse_render (tab : Bytes → Option Qual) (es : List Elem)
           rw [hsp] at this; exact absurd this hne
     | cons e2 es' =>
       rw [render_cons_cons]
-      obtain ⟨ih1, ih2⟩ := ih hs' hk' false (n + 1)
+      obtain ⟨ih1, ih2⟩ := ih hs' false (n + 1)
       by_cases hr : e.rng = []
       · rw [rangesGo_empty_comma e he hr]
         simp only [parseRangesFrom, parseElem_nil, denoteFrom, denoteElem_empty e _ hr]
@@ -175,7 +160,7 @@ theorem parse_render (tab : Bytes → Option Qual) (es : List Elem)
           · rfl
           · exact ih2 r hr' hnil
       · rw [rangesGo_elem_comma e he hr]
-        simp only [parseRangesFrom, parseElem_rendered tab e (n + 1) he hr hke, denoteFrom]
+        simp only [parseRangesFrom, parseElem_rendered tab e (n + 1) he hr, denoteFrom]
         cases hd : denoteElem e (n + 1) with
         | none => simp only [Option.map_none]; exact ⟨ih1, ih2⟩
         | some s =>
@@ -193,63 +178,23 @@ theorem parse_render (tab : Bytes → Option Qual) (es : List Elem)
               rw [hsp] at this; exact absurd this hne
             · exact ih2 r hr' hnil
 
-/-! ### from the grammar predicates to the strict form -/
+/-! ### from the grammar predicate to its unpacked form -/
 
-theorem ows_spOnly {s : Bytes} (h : isOWS s = true) (h9 : s.contains 9 = false) : spOnly s = true := by
-  unfold isOWS at h
-  unfold spOnly
-  rw [List.all_eq_true] at h ⊢
-  intro x hx
-  have := h x hx
-  simp only [Bool.or_eq_true, beq_iff_eq] at this ⊢
-  rcases this with e | e
-  · exact e
-  · subst e
-    have : List.contains s 9 = true := List.contains_iff_mem.2 hx
-    rw [h9] at this; cases this
-
-theorem strict_of_wf {es : List Elem} (hwf : wf es = true) (hk1 : Known.K1 es = false) : ∀ e ∈ es, e.strict := by
+theorem strict_of_wf {es : List Elem} (hwf : wf es = true) : ∀ e ∈ es, e.strict := by
   intro e he
   unfold wf at hwf
   have hwe := List.all_eq_true.1 hwf e he
-  unfold Known.K1 at hk1
-  have hke : (e.lead.contains 9 || e.trail.contains 9 || e.params.any fun p => p.ows1.contains 9 || p.ows2.contains 9) = false := by
-    cases hh : (e.lead.contains 9 || e.trail.contains 9 || e.params.any fun p => p.ows1.contains 9 || p.ows2.contains 9) with
-    | false => rfl
-    | true =>
-      have : (es.any fun e => e.lead.contains 9 || e.trail.contains 9 || e.params.any fun p => p.ows1.contains 9 || p.ows2.contains 9) = true :=
-        List.any_eq_true.2 ⟨e, he, hh⟩
-      rw [hk1] at this; cases this
-  simp only [Bool.or_eq_false_iff] at hke
-  obtain ⟨⟨hl, ht⟩, hp⟩ := hke
   have hwe' := hwe
   unfold wfElem at hwe'
   simp only [Bool.and_eq_true] at hwe'
-  obtain ⟨⟨⟨⟨hol, hot⟩, _⟩, hpar⟩, _⟩ := hwe'
-  refine ⟨hwe, ows_spOnly hol hl, ows_spOnly hot ht, ?_⟩
+  obtain ⟨⟨⟨hol, hot⟩, _⟩, hpar⟩ := hwe'
+  refine ⟨hwe, hol, hot, ?_⟩
   intro p hpm
   have hwp := List.all_eq_true.1 hpar p hpm
-  have hp9 : (p.ows1.contains 9 || p.ows2.contains 9) = false := by
-    cases hh : (p.ows1.contains 9 || p.ows2.contains 9) with
-    | false => rfl
-    | true =>
-      have : (e.params.any fun p => p.ows1.contains 9 || p.ows2.contains 9) = true := List.any_eq_true.2 ⟨p, hpm, hh⟩
-      rw [hp] at this; cases this
-  simp only [Bool.or_eq_false_iff] at hp9
   have hwp' := hwp
   unfold wfParam at hwp'
   simp only [Bool.and_eq_true] at hwp'
-  exact ⟨hwp, ows_spOnly hwp'.1.1 hp9.1, ows_spOnly hwp'.1.2 hp9.2⟩
-
-theorem noK2_of {es : List Elem} (hk2 : Known.K2 es = false) : ∀ e ∈ es, e.noK2 := by
-  intro e he
-  unfold Known.K2 at hk2
-  unfold Elem.noK2
-  cases hh : Known.emptyBeforeNonEmpty (Known.significant e.params) with
-  | false => rfl
-  | true =>
-    have : (es.any fun e => Known.emptyBeforeNonEmpty (Known.significant e.params)) = true := List.any_eq_true.2 ⟨e, he, hh⟩
-    rw [hk2] at this; cases this
+  exact ⟨hwp, hwp'.1.1, hwp'.1.2⟩
 
 /-! ### bridging the candidate lists -/
 
